@@ -9,7 +9,7 @@ namespace NaijaVerif.Capture
 set_option linter.unusedSimpArgs false
 
 theorem Side.write_rd {pipeCap n} {d d' : Side} (h : Side.write pipeCap d n = some d') : d'.rd = d.rd := by
-  obtain ⟨pending, written, pipe, acc, rd⟩ := d
+  obtain ⟨pending, written, pipe, acc, rd, wopen⟩ := d
   simp only [Side.write] at h
   split at h
   · cases h
@@ -19,11 +19,16 @@ theorem Side.write_rd {pipeCap n} {d d' : Side} (h : Side.write pipeCap d n = so
     · obtain ⟨_, rfl⟩ := h; rfl
 
 theorem Side.drop_rd {n} {d d' : Side} (h : Side.drop d n = some d') : d'.rd = d.rd := by
-  obtain ⟨pending, written, pipe, acc, rd⟩ := d
+  obtain ⟨pending, written, pipe, acc, rd, wopen⟩ := d
   simp only [Side.drop] at h
   split at h
   · cases h
   · cases rd <;> simp at h <;> (subst h; rfl)
+
+theorem Side.close_rd {d d' : Side} (h : Side.close d = some d') : d'.rd = d.rd := by
+  unfold Side.close at h
+  split at h <;> cases h
+  rfl
 
 theorem Side.read_unfinished {chunk} {d d' : Side} (h : Side.read chunk d = some d') : d.finished = false := by
   unfold Side.read at h; unfold Side.finished
@@ -76,6 +81,15 @@ theorem step_finished_stable {cfg : Cfg} {plan : Plan} {s s' : State} {l : Label
       obtain ⟨d, hd, rfl⟩ := hs
       by_cases hy : y = x
       · exact side_set_same y d hy (by rw [Side.drop_rd hd, hy])
+      · rw [side_set_other y d hy]
+    · cases hs
+  | childClose y =>
+    simp only [step] at hs
+    split at hs
+    · simp only [Option.map_eq_some_iff] at hs
+      obtain ⟨d, hd, rfl⟩ := hs
+      by_cases hy : y = x
+      · exact side_set_same y d hy (by rw [Side.close_rd hd, hy])
       · rw [side_set_other y d hy]
     · cases hs
   | childSigpipe y =>
@@ -242,6 +256,13 @@ theorem OkJoined.step {cfg plan} {s s' : State} {l : Label} (hi : Inv cfg plan s
           cases x <;> rfl
         · cases hs
       | childDrop x n =>
+        simp only [Capture.step] at hs
+        split at hs
+        · simp only [Option.map_eq_some_iff] at hs
+          obtain ⟨d, _, rfl⟩ := hs
+          cases x <;> rfl
+        · cases hs
+      | childClose x =>
         simp only [Capture.step] at hs
         split at hs
         · simp only [Option.map_eq_some_iff] at hs
